@@ -17,6 +17,7 @@ import (
 	"errors"
 	"fmt"
 	"math/big"
+	"net/url"
 	"os"
 	"runtime"
 	"sort"
@@ -48,6 +49,7 @@ import (
 	"github.com/attestantio/vouch/util"
 	"github.com/attestantio/vouch/verifsupport"
 	"github.com/holiman/uint256"
+	pkgerrors "github.com/pkg/errors"
 	"github.com/rs/zerolog"
 	e2types "github.com/wealdtech/go-eth2-types/v2"
 	e2wtypes "github.com/wealdtech/go-eth2-wallet-types/v2"
@@ -280,6 +282,12 @@ func c11SourceBytes(docs map[int]*c11Doc, out string, doc int, variant int64) ([
 		return c11DocJSON(d), nil
 	case "error":
 		return nil, errors.New("scripted source failure")
+	case "timeout", "canceled":
+		// the source's client ran into its own time-out / cancelled its own request: the error wraps a context
+		// error although the context of the fetch is live
+		kind := map[string]string{"timeout": "deadline", "canceled": "canceled"}[out]
+		_, err := c11KindErr(context.Background(), kind, "verif://execution-config", variant)
+		return nil, err
 	case "malformed":
 		bad := []string{
 			`{`, `[]`, `{"version":3}`, `{"version":2,"fee_recipient":"0x12"}`, `{"version":2,"proposers":[{"proposer":""}]}`,
@@ -417,10 +425,13 @@ type c11Env struct {
 	// signer
 	realSigner signer.ValidatorRegistrationSigner
 	signFail   map[[3]int]bool
-	// relays and nodes
-	relayFail map[int]bool
-	nodeFail  map[int]bool
+	signKind   string // kind of the scripted signing failures ("" = "err")
+	// relays and nodes: the scripted-failing ones with the KIND of their failure (ErrKindsAll of the specification:
+	// "err" | "deadline" | "canceled" | "notactive"); prepOut has an entry for every node ("ok" included)
+	relayFail map[int]string
+	nodeFail  map[int]string
 	prepOut   map[int]string
+	numNodes  int // beacon nodes configured (secondary registration submitters = preparation submitters); 0 = 2
 	fwdIn     map[[3]int]*builderapiv1.SignedValidatorRegistration
 	mode      string // "reg" | "fwd": how a relay judges the signature of what it receives
 	prepSeen  int
@@ -437,7 +448,7 @@ type c11Env struct {
 	gate        chan struct{}
 	gateArrived int
 	f2In        map[[3]int]*builderapiv1.SignedValidatorRegistration
-	f2RelayFail map[int]bool
+	f2RelayFail map[int]string
 	// the instance was abandoned by the watchdog: nothing it still does is recorded
 	dead atomic.Bool
 }
@@ -453,7 +464,7 @@ func c11Lane(ctx context.Context) string {
 func c11NewEnv(t testing.TB, tr *verifsupport.Trace, sc int, docs []c11Doc) *c11Env {
 	c11InitKeys(t)
 	e := &c11Env{t: t, tr: tr, sc: sc, docs: map[int]*c11Doc{}, seed: verifsupport.Seed(),
-		srcOut: "error", signFail: map[[3]int]bool{}, relayFail: map[int]bool{}, nodeFail: map[int]bool{},
+		srcOut: "error", signFail: map[[3]int]bool{}, relayFail: map[int]string{}, nodeFail: map[int]string{},
 		prepOut: map[int]string{}, fwdIn: map[[3]int]*builderapiv1.SignedValidatorRegistration{}, mode: "reg"}
 	e.acctsCond = sync.NewCond(&e.mu)
 	for i := range docs {
@@ -592,6 +603,7 @@ func (s *c11Signer) SignValidatorRegistration(ctx context.Context, account e2wty
 	key := [3]int{v, c11FeeID(reg.FeeRecipient), c11GasID(reg.GasLimit)}
 	e.mu.Lock()
 	fail := e.signFail[key]
+	kind := e.signKind
 	real := e.realSigner
 	quiet := e.quiet
 	e.mu.Unlock()
@@ -599,7 +611,11 @@ func (s *c11Signer) SignValidatorRegistration(ctx context.Context, account e2wty
 	var err error
 	switch {
 	case fail:
-		err = errors.New("scripted signing failure")
+		if kind == "" || kind == "err" {
+			err = errors.New("scripted signing failure")
+		} else {
+			_, err = c11KindErr(context.Background(), kind, "signer", e.calls.Add(1))
+		}
 	case real != nil:
 		sig, err = real.SignValidatorRegistration(ctx, account, registration)
 	default:
@@ -716,6 +732,64 @@ func (e *c11Env) inFlight(ctx context.Context, k string, anyFailing bool, first 
 	return ctx.Err()
 }
 
+// ---- the kind of a failure ----
+
+// c11KindErr is the error the client of a relay / beacon node returns for a failure of the given kind of the
+// specification's alphabet, built the way go-eth2-client and go-builder-client build theirs:
+//
+//	"deadline"   the client's OWN per-call time-out (context.WithTimeout derived from the caller's context) fires:
+//	             the error wraps context.DeadlineExceeded although the caller's context is live and has no deadline
+//	"canceled"   the client's own request context is cancelled: wraps context.Canceled
+//	"notactive"  ErrNotActive
+//	"err"        an ordinary error
+//
+// wrapped as errors.Join(msg, *url.Error{Err: cause}) (net/http under go-eth2-client), github.com/pkg/errors.Wrap,
+// fmt.Errorf("%w") or returned bare, by turns.  If the CALLER's context is done when the error is ready the outcome
+// is the context error ("ctx"), as for any other call.
+func c11KindErr(ctx context.Context, kind string, what string, variant int64) (string, error) {
+	var cause error
+	if variant < 0 {
+		variant = -variant
+	}
+	switch kind {
+	case "deadline":
+		opCtx, cancel := context.WithTimeout(ctx, time.Millisecond)
+		<-opCtx.Done()
+		cause = opCtx.Err()
+		cancel()
+	case "canceled":
+		opCtx, cancel := context.WithCancel(ctx)
+		cancel()
+		cause = opCtx.Err()
+	case "notactive":
+		cause = consensusclient.ErrNotActive
+	default:
+		kind = "err"
+		msgs := []string{"scripted failure: connection refused", "scripted failure: POST failed with status 500", "scripted failure: unexpected EOF"}
+		cause = errors.New(msgs[int(variant%int64(len(msgs)))])
+	}
+	if err := ctx.Err(); err != nil {
+		return "ctx", err
+	}
+	switch variant % 4 {
+	case 0:
+		if kind == "deadline" || kind == "canceled" {
+			return kind, errors.Join(errors.New("failed to call POST endpoint"), &url.Error{Op: "Post", URL: what, Err: cause})
+		}
+		return kind, errors.Join(errors.New("failed to call POST endpoint"), cause)
+	case 1:
+		return kind, pkgerrors.Wrap(cause, "failed to submit to "+what)
+	case 2:
+		return kind, fmt.Errorf("request to %s: %w", what, cause)
+	}
+	return kind, cause
+}
+
+// failWith is c11KindErr for a fake of this environment.
+func (e *c11Env) failWith(ctx context.Context, kind string, what string) (string, error) {
+	return c11KindErr(ctx, kind, what, e.seed*31+e.calls.Add(1))
+}
+
 // ---- relays ----
 
 // c11Relay is a relay client living in util's builder client cache; it serves the current environment.
@@ -824,10 +898,15 @@ func (r *c11Relay) SubmitValidatorRegistrations(ctx context.Context, opts *build
 		emit(verifsupport.Ev{"ev": "RelayFinish", "out": "ctx"})
 		return err
 	}
-	if fail {
-		emit(verifsupport.Ev{"ev": "RelayFinish", "out": "err"})
+	if fail != "" {
+		if fail == "deadline" && lat == "batched" && len(regs) > 1 {
+			// the time-out strikes while the payload is on its way: a part has arrived
+			emit(verifsupport.Ev{"ev": "RelayBatch", "regs": regs[:1]})
+		}
+		out, err := e.failWith(ctx, fail, c11RelayAddr(r.id)+"/eth/v1/builder/validators")
+		emit(verifsupport.Ev{"ev": "RelayFinish", "out": out})
 		e.failedNow("R")
-		return errors.New("scripted relay failure")
+		return err
 	}
 	if gate != nil {
 		// a held round: the request stays on the wire until the driver lets the round go (or its context ends)
@@ -913,10 +992,11 @@ func (n *c11Node) SubmitValidatorRegistrations(ctx context.Context, registration
 		emit(verifsupport.Ev{"ev": "NodeFinish", "out": "ctx"})
 		return err
 	}
-	if fail {
-		emit(verifsupport.Ev{"ev": "NodeFinish", "out": "err"})
+	if fail != "" {
+		out, err := e.failWith(ctx, fail, n.Address()+"/eth/v1/validator/register_validator")
+		emit(verifsupport.Ev{"ev": "NodeFinish", "out": out})
 		e.failedNow("N")
-		return errors.New("scripted node failure")
+		return err
 	}
 	if err := e.inFlight(ctx, "N", anyFailing, true); err != nil {
 		emit(verifsupport.Ev{"ev": "NodeFinish", "out": "ctx"})
@@ -932,7 +1012,7 @@ func (n *c11Node) SubmitProposalPreparations(ctx context.Context, preparations [
 	out := e.prepOut[n.id]
 	anyFailing := false
 	for _, o := range e.prepOut {
-		anyFailing = anyFailing || o == "err"
+		anyFailing = anyFailing || (o != "ok" && o != "")
 	}
 	e.mu.Unlock()
 	if out == "" {
@@ -948,17 +1028,16 @@ func (n *c11Node) SubmitProposalPreparations(ctx context.Context, preparations [
 	switch {
 	case ctx.Err() != nil:
 		out, err = "ctx", ctx.Err()
-	case out == "err":
-		err = errors.New("scripted node failure")
-	case out == "notactive":
-		err = consensusclient.ErrNotActive
+	case out != "ok":
+		// the node fails of its own accord, with the scripted kind of error
+		out, err = e.failWith(ctx, out, n.Address()+"/eth/v1/validator/prepare_beacon_proposer")
 	default:
 		if err = e.inFlight(ctx, "P", anyFailing, true); err != nil {
 			out = "ctx"
 		}
 	}
 	e.emit(verifsupport.Ev{"ev": "PrepReturn", "n": n.id, "out": out})
-	if out == "err" {
+	if out != "ok" && out != "ctx" {
 		e.failedNow("P")
 	}
 	e.mu.Lock()
@@ -1073,7 +1152,11 @@ func c11NewSystem(t testing.TB, env *c11Env, initOut string, initDoc int, realSi
 	ctx, cancel := context.WithCancel(context.Background())
 	sys := &c11System{env: env, sched: verifsupport.NewScheduler(), cancel: cancel}
 	c11InstallRelays(env)
-	for id := 1; id <= 2; id++ {
+	numNodes := env.numNodes
+	if numNodes == 0 {
+		numNodes = 2
+	}
+	for id := 1; id <= numNodes; id++ {
 		sys.nodes = append(sys.nodes, &c11Node{id: id, env: env})
 	}
 	if realSigner {
